@@ -264,6 +264,127 @@ fn part_a(args: &Args, shard: u64, m: &mut Monitor) {
     }
 }
 
+
+/// Part C (expected provider): every token gets a second, Pyth feed registered next to its custom
+/// Chainlink-Data-Streams feed; `expected_provider` is switched at random. A fresh, fully verified Pyth
+/// `PriceUpdateV2` account (owned by the Pyth receiver program id) or the token's fresh custom feed is
+/// then offered to `set_prices_from_price_feed`. A price whose provider is not the expected one, or
+/// whose feed id is not the configured one, must never be accepted.
+fn part_c(args: &Args, shard: u64, m: &mut Monitor) {
+    use anchor_lang::AccountSerialize;
+    use pyth_solana_receiver_sdk::price_update::{PriceFeedMessage, PriceUpdateV2, VerificationLevel};
+    let mut rng = Rng::derive(args.seed, shard, 0x24C);
+    let mut w = World::bootstrap_store();
+    w.bootstrap_oracle();
+    let toks = [w.add_token("WBTC", 8, 2, false), w.add_token("SOL", 9, 4, false), w.add_token("USDC", 6, 6, false)];
+    let keeper = w.keeper;
+    let pyth_program = pyth_solana_receiver_sdk::ID;
+    let pyth_feed_ids: Vec<Pubkey> = (0..3).map(|i| hostsvm::key(&format!("c24-pyth-feed-{i}"))).collect();
+    let _ = w.insert_amount("oracle_max_age", 3600);
+    for (i, t) in toks.iter().enumerate() {
+        // a feed can only be registered for a further provider by re-pushing the token config
+        let info = &w.tokens[*t];
+        let builder = gmsol_store::states::UpdateTokenConfigParams::default()
+            .update_price_feed(&PriceProviderKind::ChainlinkDataStreams, info.feed_id, None)
+            .and_then(|b| b.update_price_feed(&PriceProviderKind::Pyth, pyth_feed_ids[i], None));
+        let Ok(builder) = builder else {
+            m.inconclusive("cannot build a two-provider token config");
+            return;
+        };
+        let builder = builder.with_expected_provider(PriceProviderKind::ChainlinkDataStreams).with_precision(info.precision);
+        let ix = six(
+            sa::PushToTokenMap { authority: keeper, store: w.store, token_map: w.token_map, token: info.mint, system_program: anchor_lang::system_program::ID },
+            si::PushToTokenMap { name: info.name.clone(), builder, enable: true, new: false },
+        );
+        if w.send(&[ix], &[keeper]).is_err() {
+            m.inconclusive("cannot register a Pyth feed config");
+            return;
+        }
+    }
+    let mut expected = [PriceProviderKind::ChainlinkDataStreams; 3];
+    let rounds = args.scale(90, 300);
+    for round in 0..rounds {
+        w.svm.warp(rng.range_i64(1, 10));
+        let i = rng.below(3) as usize;
+        let info_mint = w.tokens[toks[i]].mint;
+        if rng.chance(1, 2) {
+            let p = if rng.bool() { PriceProviderKind::Pyth } else { PriceProviderKind::ChainlinkDataStreams };
+            let ix = six(sa::SetExpectedProvider { authority: keeper, store: w.store, token_map: w.token_map }, si::SetExpectedProvider { token: info_mint, provider: p as u8 });
+            // setting the provider that is already expected is refused by the program: keep the model on failure
+            if w.send(&[ix], &[keeper]).is_ok() {
+                expected[i] = p;
+            }
+        }
+        // fresh custom feed
+        let now = w.svm.clock.unix_timestamp;
+        let base: u128 = [60_000u128, 150, 1][i] * crate::sim::E18;
+        let price = base / 1000 * rng.range(900, 1100) as u128;
+        let r = w.report_for(toks[i], b(price - price / 10_000), b(price), b(price + price / 10_000), now);
+        let ix = w.update_feed_ix(toks[i], r.compressed_full_report(), true, keeper);
+        let _ = w.send(&[ix], &[keeper]);
+        // fresh Pyth update: for the configured feed id, or (fault) for another token's feed id
+        let wrong_feed_id = rng.chance(1, 6);
+        let feed_id = if wrong_feed_id { pyth_feed_ids[(i + 1) % 3] } else { pyth_feed_ids[i] };
+        let pyth_price = [60_000i64, 150, 1][i] * 100_000_000 / 1000 * rng.range(900, 1100) as i64;
+        let update = PriceUpdateV2 {
+            write_authority: keeper,
+            verification_level: VerificationLevel::Full,
+            price_message: PriceFeedMessage { feed_id: feed_id.to_bytes(), price: pyth_price, conf: (pyth_price / 10_000) as u64, exponent: -8, publish_time: now - 1, prev_publish_time: now - 2, ema_price: pyth_price, ema_conf: 1 },
+            posted_slot: w.svm.clock.slot,
+        };
+        let mut data = Vec::new();
+        if update.try_serialize(&mut data).is_err() {
+            m.inconclusive("cannot serialize a PriceUpdateV2");
+            return;
+        }
+        let pyth_account = hostsvm::key(&format!("c24-pyth-acc-{shard}-{round}"));
+        w.svm.set_account(pyth_account, hostsvm::Account::new(10_000_000, data, pyth_program));
+        let offer_pyth = rng.bool();
+        let offered_provider = if offer_pyth { PriceProviderKind::Pyth } else { PriceProviderKind::ChainlinkDataStreams };
+        let account = if offer_pyth { pyth_account } else { w.tokens[toks[i]].feed };
+        let res = w.send(&[set_prices_ix(&w, keeper, &[info_mint], &[account])], &[keeper]);
+        m.eval();
+        let wit = json!({"shard": shard, "round": round, "token": w.tokens[toks[i]].name, "expected_provider": format!("{}", expected[i]), "offered_provider": format!("{offered_provider}"), "pyth_feed_id_of_another_token": wrong_feed_id && offer_pyth});
+        match res {
+            Ok(_) => {
+                if offered_provider != expected[i] {
+                    m.violation("C24:set_prices:price_from_unexpected_provider_accepted", wit.clone());
+                } else if offer_pyth && wrong_feed_id {
+                    m.violation("C24:set_prices:unexpected_feed_accepted", wit.clone());
+                } else {
+                    m.count(&format!("provider_expected_accepted_{offered_provider}"));
+                    m.nontrivial(format!("provider-accepted:{offered_provider}:{i}").as_bytes());
+                    if let Some(oracle) = load::<Oracle>(&w.svm, &w.oracle) {
+                        match oracle.get_primary_price(&info_mint, true) {
+                            Ok(p) if p.min > 0 && p.min <= p.max => {}
+                            Ok(p) => m.violation("C24:set_prices:malformed_price_stored", json!({"part": "C", "min": p.min.to_string(), "max": p.max.to_string(), "case": wit})),
+                            Err(_) => m.violation("C24:set_prices:accepted_token_has_no_price", json!({"part": "C", "case": wit})),
+                        }
+                    }
+                    if m.wants_sample() && round % 17 == 2 {
+                        m.sample(json!({"part": "C", "case": wit}));
+                    }
+                }
+                if w.send(&[clear_ix(&w, keeper)], &[keeper]).is_err() {
+                    m.inconclusive("clear_all_prices failed");
+                    return;
+                }
+            }
+            Err(_) => {
+                if offered_provider != expected[i] {
+                    m.count(&format!("provider_unexpected_rejected_{offered_provider}"));
+                    m.nontrivial(format!("provider-rejected:{offered_provider}:{i}").as_bytes());
+                } else if offer_pyth && wrong_feed_id {
+                    m.count("pyth_update_for_another_feed_id_rejected");
+                    m.nontrivial(format!("pyth-feed-id-rejected:{i}").as_bytes());
+                } else {
+                    m.count(&format!("provider_expected_rejected_{offered_provider}"));
+                }
+            }
+        }
+    }
+}
+
 use vcommon::serde_json;
 
 fn part_b(args: &Args, shard: u64, m: &mut Monitor) {
@@ -300,23 +421,36 @@ pub fn run(args: &Args) -> Option<i32> {
          deviation), feed reports with random timestamps / bid-price-ask spreads, clock moves, then the real \
          set_prices_from_price_feed with random token subsets (incl. another token's feed); every acceptance is \
          re-derived from the feed accounts and settings. B: exchange workload; oracle must be cleared after every \
-         oracle-using transaction. non-trivial = an accepted price set (A) / a successful oracle-using transaction (B); \
-         distinct = (number of tokens, settings) resp. operation kind",
+         oracle-using transaction. C: tokens with a Pyth feed registered next to the custom Chainlink feed and a randomly \
+         switched expected provider; a fresh verified Pyth PriceUpdateV2 account or the custom feed is offered: a price \
+         from a provider other than the expected one (or a Pyth update for another feed id) must never be accepted. \
+         non-trivial = an accepted price set (A) / a successful oracle-using transaction (B) / a decided provider case (C); \
+         distinct = (number of tokens, settings) resp. operation kind resp. (outcome, provider, token)",
     );
     mon.assume("the reference price of a custom feed is the feed's own `price` field; band slack 1e-5 relative for decimal rounding");
     mon.assume("heartbeat staleness and market-open rules (other properties) may reject more; only acceptances are judged");
     let shards = args.scale(32, 128);
     let quiet = hostsvm::QuietStdout::new();
     run_shards(&mut mon, args.threads, shards, |shard, m| {
-        if shard % 2 == 0 {
-            part_a(args, shard, m);
-        } else {
-            part_b(args, shard, m);
+        match shard % 4 {
+            0 | 2 => part_a(args, shard, m),
+            1 => part_b(args, shard, m),
+            _ => {
+                // B at half size plus the expected-provider scenarios
+                if shard % 8 == 3 {
+                    part_b(args, shard, m);
+                }
+                part_c(args, shard, m);
+            }
         }
     });
     drop(quiet);
     mon.require("set_prices_accepted", 100);
     mon.require("set_prices_rejected", 50);
-    mon.require("oracle_cleared_after_successful_use", 200);
+    mon.require("oracle_cleared_after_successful_use", 150);
+    mon.require("provider_expected_accepted_pyth", 20);
+    mon.require("provider_expected_accepted_chainlink_data_streams", 20);
+    mon.require("provider_unexpected_rejected_pyth", 20);
+    mon.require("provider_unexpected_rejected_chainlink_data_streams", 20);
     Some(mon.finish())
 }
